@@ -1,6 +1,7 @@
 import DateutilVerif.Properties.C06
 import DateutilVerif.Properties.TzGen   -- translator tie (wt-iso): obligations about the re-translated lookup functions
 import DateutilVerif.Properties.TzifGen   -- translator tie for the reader (wt-tzfile): tzfile._read_tzfile re-translated
+import DateutilVerif.Properties.TzLoadGen   -- translator tie for the load paths (wt-tzfile): tzfile.__init__, ZoneInfoFile.__init__ / get
 #print axioms C06.lookup_exact
 #print axioms C06.typeAt_before_first
 #print axioms C06.before_first
@@ -23,3 +24,10 @@ import DateutilVerif.Properties.TzifGen   -- translator tie for the reader (wt-t
 #print axioms C06.read_tzfile_error
 #print axioms C06.decode_encode_gen
 #print axioms C06.lookup_exact_read_gen
+-- translator tie for the LOAD PATHS (wt-tzfile): Gen.tzfile_init / zoneInfoFile_init / zoneInfoFile_get (Generated/TzLoadKernels.lean)
+#print axioms C06.gen_tzfile_init_stream
+#print axioms C06.gen_tzfile_init_path
+#print axioms C06.gen_tzfile_init_none
+#print axioms C06.archive_zones
+#print axioms C06.archive_members
+#print axioms C06.load_paths_equal
